@@ -56,8 +56,21 @@ def sweep(seed, tier):
                         yield {"bodies": bodies, "comp": comp, "upper": upper, "zero": zero, "cuts": [], "bufsize": bs}
 
 
+def truncated(seed):
+    """Peer closes inside the body (mid size line, mid chunk data, before the zero chunk), uncompressed."""
+    from spec.concrete import chunked_encode
+    for bodies in (["68656c6c6f", "616263"], ["41"], ["61" * 17]):
+        n = len(chunked_encode([bytes.fromhex(h) for h in bodies], 0, False, True))
+        for t in range(1, n):
+            yield {"bodies": bodies, "comp": 0, "upper": False, "zero": True, "cuts": [], "truncate": t}
+            yield {"bodies": bodies, "comp": 0, "upper": False, "zero": True, "cuts": [max(1, t // 2)], "truncate": t}
+
+
 def replay(o, seed):
-    return try_candidates("chunked", sweep(seed, "quick"), key=lambda i, r: "chunked", limit=200000)
+    r = try_candidates("chunked", sweep(seed, "quick"), key=lambda i, r: "chunked", limit=200000)
+    if r.get("reproduced"):
+        return r
+    return try_candidates("chunked", truncated(seed), key=lambda i, r: "chunked-closed-early")
 
 
 def bounded(tier, seed, results):
